@@ -86,7 +86,8 @@ def polyak_cases(rep, rng, dev, tier):
     """get_induced_vector_potential with scripted histories."""
     from tdgl.solver.solver import TDGLSolver
     texts, refs = [], []
-    for ci in range(5 if tier == "quick" else 25):
+    ncase = 5 if tier == "quick" else 25
+    for ci in range(ncase + 3):
         alpha = rng.choice([0.1, 0.5, 1.0, 1.5])
         beta = rng.choice([0.5, 1.0, 0.25, 0.9])
         opts = runs.make_options(None, solve_time=1.0, include_screening=True, screening_step_size=alpha,
@@ -95,12 +96,28 @@ def polyak_cases(rep, rng, dev, tier):
         E = solver.num_edges
         cur = np.array([rng.gauss(0, 1) for _ in range(E)])
         A0 = np.array([[rng.gauss(0, 0.1), rng.gauss(0, 0.1)] for _ in range(E)]) if ci % 2 else np.zeros((E, 2))
-        first = (ci % 3 == 0)
+        if ci >= ncase:
+            # the iterate equals the direct sum everywhere except on ONE edge - the first, the last, one in the middle: the
+            # convergence measure is a maximum over ALL edges and must see it wherever it sits
+            probe = TDGLSolver(dev, opts, applied_vector_potential=0.2)
+            probe.get_induced_vector_potential(cur, [np.zeros((E, 2))], [0.0])
+            A0 = np.array(probe.new_A_induced, copy=True)
+            e_ = (0, E - 1, E // 2)[ci - ncase]
+            A0[e_] = A0[e_] * (1 + 0.05) + 1e-3 * float(np.max(np.abs(A0)))
+        first = (ci % 3 == 0) and ci < ncase
         A_vals = [A0.copy()]
         vel = [0.0] if first else [np.array([[rng.gauss(0, 0.05), rng.gauss(0, 0.05)] for _ in range(E)])]
         v_in = None if first else vel[0].copy()
         J_site = dev.mesh.get_quantity_on_site(cur)
         A1, err = solver.get_induced_vector_potential(cur, A_vals, vel)
+        if ci >= ncase and not first:
+            Kk = np.asarray(solver.new_A_induced)
+            rel_ = np.linalg.norm(Kk - A0, axis=1) / np.maximum(np.linalg.norm(np.asarray(A1), axis=1), 1e-20)
+            if abs(float(err) - float(rel_.max())) > 1e-9 * float(rel_.max()):
+                rep.violation("the screening mismatch the loop decides on is not the maximum over ALL edges of |direct sum - iterate| / "
+                              "|new iterate|: a mismatch confined to one edge is not (fully) seen",
+                              {"edge_with_the_mismatch": int(e_), "edges": int(E), "reported": float(err), "maximum_over_edges": float(rel_.max()),
+                               "alpha": alpha, "beta": beta})
         t = HEADER + f"Definition srcs := {srcs_literal(solver.sites, solver.areas, J_site)}.\n"
         t += f"Definition K := kernel OpsF srcs {vlist(solver.edge_centers)}.\n"
         t += f"Definition A0 := {vlist(A0)}.\n"
